@@ -29,7 +29,7 @@ ASSUMPTIONS = ["pysam's BGZFile.seek/readline is trusted to read back virtual of
 
 
 def plan(tier):
-    return {"cases": 800 if tier == "quick" else 10000, "shards": 16,
+    return {"cases": 800 if tier == "quick" else 40000, "shards": 16,
             "shard_budget_s": 300 if tier == "quick" else 3300}
 
 
